@@ -3,6 +3,8 @@ import Amgcl.Proofs.RelaxGS
 import Amgcl.Proofs.RelaxCheb
 import Amgcl.Proofs.RelaxIlu
 import Amgcl.Proofs.RelaxCheck
+import Mathlib.Algebra.Field.Rat
+import Mathlib.Algebra.Order.Ring.Rat
 /-!
 # C06 — every relaxation sweep equals its mathematical definition
 
@@ -431,5 +433,63 @@ theorem least_squares_row_sound (A M : CRS K) (h : leastSquaresRowsb A M = true)
   simpa only [spaiResid_eq] using this
 
 end vgrade_ls
+
+/-! ## Non-vacuity: the hypotheses are satisfiable, the theorems instantiate on a concrete non-symmetric matrix -/
+section examples
+
+/-- a 3×3 structurally non-symmetric, diagonally dominant matrix over `ℚ` -/
+def exA : CRS ℚ := ⟨3, #[[(0, 4), (1, -1)], [(0, -2), (1, 5), (2, -1)], [(1, -1), (2, 3)]]⟩
+/-- the same matrix with row 1 stored out of order and an off-diagonal entry split into two duplicates -/
+def exB : CRS ℚ := ⟨3, #[[(1, -1), (0, 4)], [(2, -1/2), (1, 5), (0, -2), (2, -1/2)], [(1, -1), (2, 3)]]⟩
+
+example : exA.WF ∧ diagOnceb exA = true ∧ exA.sortedb = true := by decide
+example : exB.WF ∧ diagOnceb exB = true ∧ exB.sortedb = false := by decide
+theorem exA_diag : ∀ i, i < exA.nrows → exA.get i i ≠ 0 := by decide +kernel
+theorem exB_diag : ∀ i, i < exB.nrows → exB.get i i ≠ 0 := by decide +kernel
+
+-- Jacobi / SPAI-0 on the unsorted matrix with duplicates
+example := jacobi_sweep (18/25 : ℚ) exB (by decide) (by decide) #[1, 2, 3] #[1/2, 0, -1] #[7, 7, 7] 1 (by decide)
+example := jacobi_affine_scratch_indep (18/25 : ℚ) (diagInv exB) exB (by simp [exB, CRS.nrows])
+example := spai0_sweep (absK : ℚ → ℚ) exB (by decide) #[1, 2, 3] #[1/2, 0, -1] #[] 2 (by decide)
+example : ∀ v : ℚ, absK v * absK v = v * v := by
+  intro v; unfold absK; split <;> ring
+example := spai0_minimises (absK : ℚ → ℚ) (by intro v; unfold absK; split <;> ring) exA (by decide) (by decide) 1
+  (by decide) (by decide) (7/3)
+-- Gauss–Seidel
+example := gs_forward exB (by decide) (by decide) exB_diag #[1, 2, 3] #[0, 0, 0] #[] rfl 1 (by decide)
+example := gs_backward exA (by decide) (by decide) exA_diag #[1, 2, 3] #[0, 0, 0] #[] rfl 0 (by decide)
+example := gs_affine_scratch_indep exA (by decide) exA_diag
+-- a genuine fixed point: `x = (1, 1, 1)`, `f = A x = (3, 2, 2)`
+theorem exA_solves : ∀ i, i < exA.nrows → rowDot (exA.row i) #[1, 1, 1] = (#[3, 2, 2] : Vec ℚ).getD i 0 := by
+  decide +kernel
+example := gs_fixed_point exA (by decide) exA_diag #[3, 2, 2] #[1, 1, 1] #[] rfl rfl exA_solves
+example := jacobi_fixed_point (1/2 : ℚ) exA #[3, 2, 2] #[1, 1, 1] #[] rfl rfl exA_solves
+-- Chebyshev with and without scaling
+example := cheb_fixed_point (K := ℚ) ⟨3, 1, 1/30, true⟩ absK exA (by intro _; decide) #[3, 2, 2] #[1, 1, 1] #[] rfl rfl
+  exA_solves
+example := cheb_affine_fixed (K := ℚ) ⟨4, 11/10, 1/4, false⟩ absK (chebSetup ⟨4, 11/10, 1/4, false⟩ absK exA) exA
+  (by intro h; exact absurd h (by decide))
+-- ILU(0): the constructor succeeds on `exA`, the factors are strictly triangular with non-zero stored pivots
+/-- the factors of `exA` (tridiagonal: ILU(0) is the exact LU factorisation) -/
+def exF : IluFactors ℚ := ⟨⟨3, #[[], [(0, -1/2)], [(1, -2/9)]]⟩, ⟨3, #[[(1, -1)], [(2, -1)], []]⟩, #[1/4, 2/9, 9/25]⟩
+local instance exDecEqCRS : DecidableEq (CRS ℚ) := fun a b =>
+  decidable_of_iff (a.ncols = b.ncols ∧ a.rows = b.rows) (by cases a; cases b; simp)
+local instance exDecEqIlu : DecidableEq (IluFactors ℚ) := fun a b =>
+  decidable_of_iff (a.L = b.L ∧ a.U = b.U ∧ a.D = b.D) (by cases a; cases b; simp)
+theorem exA_ilu0 : ilu0Factor exA = .ok exF := by decide +kernel
+example : strictLowerb exF.L = true ∧ strictUpperb exF.U = true ∧ luOnPatternb (patOf exA) exA exF = true
+    ∧ luExactb exA exF = true := by decide +kernel
+theorem exF_D : ∀ i, i < exF.L.nrows → exF.D.getD i 0 ≠ 0 := by decide +kernel
+example := ilu_solve_serial_spec exF (by decide) (by decide) (by decide) (by decide) rfl rfl rfl #[1, 2, 3] rfl
+example := ilu_solve_serial_inverse exF (by decide) (by decide) (by decide) (by decide) rfl rfl rfl exF_D #[1, 2, 3] rfl
+  2 (by decide)
+example := lu_exact_inverse exA exF (by decide +kernel) (by decide) (by decide) (by decide) (by decide) rfl rfl rfl rfl
+  exF_D #[1, 2, 3] rfl 0 (by decide)
+example := ilu0_fixed_point (1 : ℚ) exA exF (by exact exA_ilu0) #[3, 2, 2] #[1, 1, 1] #[] rfl rfl exA_solves
+-- SPAI-1 checker: for a diagonal matrix the exact inverse satisfies the normal equations
+example : leastSquaresRowsb (⟨2, #[[(0, 2)], [(1, -4)]]⟩ : CRS ℚ) ⟨2, #[[(0, 1/2)], [(1, -1/4)]]⟩ = true := by
+  decide +kernel
+
+end examples
 
 end Amgcl.C06
